@@ -34,6 +34,9 @@ CLIENT = {
     # two application threads loop in get_message(); a message is delivered right before the connection ends
     "open-two-consumers": ["local-close", "peer-dpr", "peer-fin", "peer-rst", "peer-timeout"],
     "closing": ["peer-fin", "peer-rst"],
+    # the state machine thread is in the middle of handling a base request of the peer (parked at its n-th source line) when the
+    # application calls close()
+    "open-handling-base-request": ["local-close"],
 }
 SERVER = dict(CLIENT)
 SERVER.pop("connecting")
@@ -48,6 +51,9 @@ def cases(draw):
     point = draw(st.sampled_from(sorted(table)))
     cause = draw(st.sampled_from(table[point]))
     sched = draw(conc.schedules(250))
+    if point == "open-handling-base-request":
+        return {"role": role, "point": point, "cause": cause, "sched": [], "lines": False, "n_queued": draw(st.integers(1, 4)), "holds": None,
+                "n_line": draw(st.integers(1, 400))}
     return {"role": role, "point": point, "cause": cause, "sched": sched, "lines": draw(st.booleans()) if sched else False,
             "n_queued": draw(st.integers(1, 4)), "holds": draw(conc.holds(bias="two-consumers" if point == "open-two-consumers" else None))}
 
@@ -57,7 +63,8 @@ def run_one(case):
     role, point, cause = case["role"], case["point"], case["cause"]
     got = []
     vs = []
-    with World(role=role, apps=["s6a"], line_preempt=case["lines"], max_steps=800000, line_holds=conc.wants_line_holds(case.get("holds"))) as w:
+    with World(role=role, apps=["s6a"], line_preempt=case["lines"], max_steps=800000,
+               line_holds=conc.wants_line_holds(case.get("holds")) or point == "open-handling-base-request") as w:
         consumer_ct = None
         consumer_cts = []
         # ---------------- reach the life point (fair schedule)
@@ -133,6 +140,18 @@ def run_one(case):
             from . import c05
             msgs = c05.build_msgs({"subs": [{"msgs": [{"kind": "req", "size": 100}] * case["n_queued"]}]})[0]
             w.call("submitter", lambda: [w.d.send_message(m) for m in msgs])
+        if point == "open-handling-base-request":
+            from ..world import peer_dwr, peer_cer
+            req = [peer_dwr(0x0D0D0001, 0x0E0E0001), peer_cer(0x0D0D0002, 0x0E0E0002), peer_dwr(0x0D0D0003, 0x0E0E0003) + peer_dwr(0x0D0D0004, 0x0E0E0004),
+                   app_request(3300, 4300, dest_realm=LOCAL["realm"])][case["n_queued"] % 4]
+            w.feed(req)
+            q = w.d._association._recv_messages
+            w.run(lambda: len(getattr(q, "_d", ())) > 0, 1.0)
+            before = w.sched.holds_taken
+            # parked until close() has returned in the application thread (or one virtual second has passed)
+            w.sched.hold(f"{role}_psm_thread", "line:*", case["n_line"], ("until", "closer", "thread.exit"), 1.0)
+            w.run(lambda: w.sched.holds_taken > before, 1.0)
+            info["parked"] = w.sched.holds_taken > before
         if cause == "refused":
             w.net.nack(w.net.pending_connects[-1])
         elif cause == "local-close":
@@ -283,8 +302,28 @@ def _rendezvous_sweep(args):
     return col
 
 
+def _mid_handler_sweep(args):
+    """close() called while the state machine thread is parked at its n-th source line after a base request (or an application
+    request) of the peer has reached its queue - every n of the given list"""
+    role, kind, ns = args
+    common.bootstrap()
+    from .. import refdict
+    refdict.all_classes()
+    col = Collector(PID, RULE)
+    for n in ns:
+        case = {"role": role, "point": "open-handling-base-request", "cause": "local-close", "sched": [], "lines": False, "n_queued": kind, "holds": None, "n_line": n}
+        vs, info = run_one(case)
+        col.record(case, vs, nontrivial=bool(info.get("parked")), classes=["mid-handler-sweep", "point=open-handling-base-request", "cause=local-close", "role=" + role])
+    return col
+
+
 def main(ctx):
     col = common.run_shards(_collect, 8 if ctx.quick else 16, ctx.seed, n=80 if ctx.quick else 2500)
+    ns = list(range(1, 331, 3 if ctx.quick else 1))
+    mh = [(role, kind, ns[i::4]) for role in ("client", "server") for kind in ((0, 1) if ctx.quick else (0, 1, 2, 3)) for i in range(4)]
+    for part in common.pmap(_mid_handler_sweep, mh):
+        col.merge(part)
+    col.extra["mid_handler_sweep"] = f"close() with the state machine thread parked at line n of handling an inbound request: {len(ns)} line positions x {len(mh) // 4} (role, request kind)"
     nmax = 12 if ctx.quick else 20
     jobs = [(role, cause, a, nmax) for role in ("client", "server") for cause in ("peer-fin", "local-close", "peer-dpr", "peer-rst") for a in (0, 1)]
     for part in common.pmap(_rendezvous_sweep, jobs):
